@@ -41,7 +41,7 @@ type c07Prop struct {
 
 func genC07(c *Ctx) error {
 	c.ShardSize = 30
-	c.Notes["rule"] = "one token chaincode instance A lives through the whole history; every proposal is run on A, on a fresh instance B created for that proposal over the same committed state, and on A again, with the same transaction id and timestamp; the three (status, message, payload bytes, write-set, event) are compared. Histories of 30-50 proposals: Init with one of two configurations (different robot; the second disables two functions), committed or simulated and dropped; token operations through executeTasks (emit, transfer, setFee with known / unknown currency, setFeeAddress, setRate, setLimits, buyToken, buyBack - right and wrong senders and amounts), committed or dropped, some in one task list of several tasks; queries (metadata, predictFee, balanceOf, allowedBalanceOf; also of an address the access-control service black-lists and clears between proposals); batched submissions whose proposal carries a trace parent in the transient map while each simulating peer's decorators add a different span of their own (the pending record is ledger data); probes which robot certificate the instance accepts; the token's document list (complete and incomplete additions, deletions, by the issuer and by others, then the listing); signed submissions sent to the same process under a second chaincode name (simulated and dropped); swaps begun in dropped simulations followed by an empty batchExecute (whose reply must not remember them); the cancellation of an open multi-swap sent with a timestamp before and with one after its deadline, both long past on the machine's own clock (the two replies must differ). Non-trivial: >= 3 dropped simulations that would have changed the metadata and >= 5 committed operations."
+	c.Notes["rule"] = "one token chaincode instance A lives through the whole history; every proposal is run on A, on a fresh instance B created for that proposal over the same committed state, and on A again, with the same transaction id and timestamp; the three (status, message, payload bytes, write-set, event) are compared. Histories of 30-50 proposals: Init with one of two configurations (different robot; the second disables two functions), committed or simulated and dropped; token operations through executeTasks (emit, transfer, setFee with known / unknown currency, setFeeAddress, setRate, setLimits, buyToken, buyBack - right and wrong senders and amounts), committed or dropped, some in one task list of several tasks; queries (metadata, predictFee, balanceOf, allowedBalanceOf; also of an address the access-control service black-lists and clears between proposals); batched submissions whose proposal carries a trace parent in the transient map while each simulating peer's decorators add a different span of their own (the pending record is ledger data); probes which robot certificate the instance accepts; a transfer of several industrial groups refused for more than one reason, three times over; the token's document list (complete and incomplete additions, deletions, by the issuer and by others, then the listing); signed submissions sent to the same process under a second chaincode name (simulated and dropped); swaps begun in dropped simulations followed by an empty batchExecute (whose reply must not remember them); the cancellation of an open multi-swap sent with a timestamp before and with one after its deadline, both long past on the machine's own clock (the two replies must differ). Non-trivial: >= 3 dropped simulations that would have changed the metadata and >= 5 committed operations."
 	n := c.N(60, 1000)
 	for i := 0; i < n; i++ {
 		if err := c07Case(c); err != nil {
@@ -203,6 +203,28 @@ func c07Case(c *Ctx) error {
 			jsteps = append(jsteps, map[string]interface{}{"submission_under_chaincode_name": alias, "status": ra.Status, "message": ra.Message})
 			c.Count(fmt.Sprintf("submission_under_name_%s_status_%d", alias, ra.Status))
 			dropped++
+			continue
+		}
+		if rng.Intn(10) == 0 && committedCfg != 0 {
+			// a transfer of several groups at once of which more than one cannot be moved, each for a reason of its own
+			// (not funded; a group name that cannot be a ledger key; nothing held): the refusal names the first in the
+			// order of the request, on every instance and in every run
+			assets := `[{"group":"CURA","amount":"99999999"},{"group":"CU\u0000RB","amount":"1"},{"group":"NOPE","amount":"5"},{"group":"CURB","amount":"77777777"}]`
+			cw.nonce++
+			req := w.SignedArgs("tt", "allowedIndustrialBalanceTransfer", users[rng.Intn(2)], strconv.FormatUint(cw.nonce, 10), u3.AddrString(), assets, "ref")
+			data, _ := proto.Marshal(&fpb.ExecuteTasksRequest{Tasks: []*fpb.Task{{Id: w.Peer.NextTxID(), Method: "allowedIndustrialBalanceTransfer", Args: req}}})
+			for rep := 0; rep < 3; rep++ {
+				ra, dA, dB, dA2, err := run3(c07Prop{creator: robots[committedCfg].Creator, args: strArgs("executeTasks", []string{string(data)})})
+				if err != nil {
+					return err
+				}
+				steps = append(steps, fmt.Sprintf("SQuery %d %d %d", dA, dB, dA2))
+				if rep == 0 {
+					jsteps = append(jsteps, map[string]interface{}{"industrial_transfer_refused_for_several_reasons": true, "status": ra.Status})
+				}
+			}
+			dropped++
+			c.Count("industrial_transfer_refused_for_several_reasons")
 			continue
 		}
 		if rng.Intn(12) == 0 && committedCfg != 0 {
